@@ -63,6 +63,7 @@ func main() {
 		exe, _ = filepath.Abs(exe)
 		os.Exit(fw.ParentMain(ck, tier, seed, verif, work, exe))
 	case "child":
+		fw.ExitWithParent()
 		if len(os.Args) < 8 {
 			os.Exit(2)
 		}
@@ -75,8 +76,10 @@ func main() {
 		to, _ := strconv.Atoi(os.Args[6])
 		os.Exit(fw.ChildMain(ck, os.Args[3], seed, from, to, os.Args[7]))
 	case "conf":
+		fw.ExitWithParent()
 		os.Exit(checks.ConfChildMain())
 	case "proc":
+		fw.ExitWithParent()
 		os.Exit(checks.ProcChildMain())
 	case "replay":
 		if len(os.Args) < 3 {
